@@ -134,6 +134,10 @@ class Exec(ExprMixin, CallMixin):
       elif kind == 'nvar':
         # definite description of store_nvar: name = (g, has array), t = candidate count
         out.append(nvar_is(name[0], name[1], t))
+      elif kind == 'dkeys':
+        # axioms of the ghost key enumeration of one membership array (name = has array)
+        from pyvc.expr import dkeys_axioms
+        out.append(dkeys_axioms(name))
       elif kind == 'zip':
         # definite description of zip_last for the sequence (name = array K, t = length n)
         from pyvc.expr import zip_axioms
@@ -510,14 +514,34 @@ class Exec(ExprMixin, CallMixin):
     if spec is not None and spec.mod is not None:
       mod = spec.mod(entry_ctx(st))
     facts = []
+    # objects allocated by earlier iterations (rows >= the allocation pointer at the loop head)
+    # are not described by `mod`: when the body may allocate, only rows that existed before
+    # the loop and are outside `mod` are known to be unchanged
+    allocs = mod is not None and self.may_allocate(stmts)
+    a_head = st.heap.alloc
+    rr = z3.Int('hvq_r')
+    def framed(old, nm, sort):
+      new = fresh(nm, sort)
+      facts.append(SAFE_FORALL([rr], z3.Implies(z3.And(rr < a_head, *[rr != m for m in mod]),
+                                              new[rr] == old[rr]), patterns=[new[rr]]))
+      return new
     for a in CONTAINER_ARRAYS:
       old = h.get(a)
       if mod is None:
         h = h.set(a, fresh('hv_' + a, heap_sort(a)))
+        if a == 'llen':
+          facts.append(len_nonneg(h.get(a)))
+      elif allocs:
+        h = h.set(a, framed(old, 'hv_' + a, heap_sort(a)))
+        if a == 'llen':
+          facts.append(len_nonneg(h.get(a)))
       else:
         new = old
         for r in mod:
-          new = z3.Store(new, r, fresh('hvrow_' + a, heap_sort(a).range()))
+          row = fresh('hvrow_' + a, heap_sort(a).range())
+          if a == 'llen':
+            facts.append(row >= 0)
+          new = z3.Store(new, r, row)
         h = h.set(a, new)
     fields = spec.fields if (spec is not None and spec.fields is not None) else self.written_fields(stmts)
     if '*' in fields:
@@ -526,6 +550,8 @@ class Exec(ExprMixin, CallMixin):
     for f in fields:
       if mod is None:
         h = h.set('f:' + f, fresh('hv_f_' + f, ValArr))
+      elif allocs:
+        h = h.set('f:' + f, framed(h.get('f:' + f), 'hv_f_' + f, ValArr))
       else:
         new = h.get('f:' + f)
         for r in mod:
@@ -542,6 +568,28 @@ class Exec(ExprMixin, CallMixin):
     facts.append(na >= st.heap.alloc)
     h = h.set('alloc', na)
     return s.with_heap(h).assume(*facts)
+
+  NON_ALLOCATING_CALLS = {'isinstance', 'issubclass', 'len', 'getattr', 'hasattr', 'id', 'type',
+                          'get', 'keys', 'values', 'items', 'enumerate', 'range', 'reversed', 'zip',
+                          # container mutators / readers: change rows, create no object
+                          'append', 'pop', 'add', 'remove', 'discard', 'clear', 'extend', 'insert',
+                          'index', 'count', 'startswith', 'endswith', 'validate_param_name'}
+
+  def may_allocate(self, stmts):
+    """Syntactic over-approximation: the statements may create objects."""
+    for s_ in stmts:
+      for n in ast.walk(s_):
+        if isinstance(n, ast.Call):
+          f = n.func
+          nm = f.attr if isinstance(f, ast.Attribute) else (f.id if isinstance(f, ast.Name) else None)
+          if nm not in self.NON_ALLOCATING_CALLS:
+            return True
+        elif isinstance(n, (ast.List, ast.Dict, ast.Set, ast.ListComp, ast.DictComp, ast.SetComp,
+                            ast.GeneratorExp, ast.JoinedStr, ast.Lambda)):
+          return True
+        elif isinstance(n, ast.Tuple) and isinstance(n.ctx, ast.Load):
+          return True
+    return False
 
   def loop_ctx(self, st, kterm):
     return C.Ctx(self.entry_args, self.entry_heap, st.heap, env=st.env, k=kterm)
@@ -782,6 +830,8 @@ class Exec(ExprMixin, CallMixin):
                            patterns=[dv[rr][kk]]))
     facts.append(SAFE_FORALL([rr, ii], z3.Implies(is_VRef(le[rr][ii]), ref(le[rr][ii]) < heap.alloc),
                            patterns=[le[rr][ii]]))
+    # heap well-formedness: list lengths are non-negative in every heap
+    facts.append(len_nonneg(heap.get('llen')))
     from pyvc.calls import param_row_axiom
     facts.append(param_row_axiom())
     from pyvc.sorts import SINGLETONS, SINGLETON_CLASS
@@ -875,6 +925,11 @@ class Exec(ExprMixin, CallMixin):
     for name in ctr.may_raise:
       allowed.append(cls_in(exc.cls_term, name))
     label = exc.name or 'exception'
+    # `may_raise_from`: unconditional exceptions are allowed only when they come from the listed
+    # callees (e.g. user code run by an abstract callee), not from anywhere in the body
+    only_from = getattr(ctr, 'may_raise_from', None)
+    if only_from is not None and not any(str(exc.origin or '').startswith(p) for p in only_from):
+      allowed = [a for a in allowed[:len(ctr.raises)]]
     if ctr.facts is not None:
       st = st.assume(*self.instances(ctr.facts(ctx)))
     if ctr.hints is not None:
